@@ -28,10 +28,10 @@ func init() {
 			"handler program = every sequence of operations up to the bound over the operation alphabet; response writer = httptest.ResponseRecorder or the strict net/http-rule writer). " +
 			"Every scenario is served in-process through txhttp.WrapHandler and, for the pass-through oracle, once more without the middleware on the same kind of writer. " +
 			"Two sub-spaces: 'resp' (every program of <=3 (quick) / <=5 (thorough) operations over {Header.Add, WriteHeader(200/201/204/304/404/103), Write(1 B), Write(3 B), Write(limit B), Flush, ReadFrom(4 B), read-body-and-echo-length} " +
-			"x handler Content-Type {none, text/plain} x {response body access off, on x limit action {Reject, ProcessPartial} x MIME list {matching, not matching}} x rule {none, phase 3/4 x deny/redirect/drop}, plus SecRuleEngine DetectionOnly x {Reject, ProcessPartial} x {no rule, would-be deny}, request body 3 B; " +
+			"x handler Content-Type {none, text/plain} x {response body access off, on x limit action {Reject, ProcessPartial} x MIME list {matching, not matching}} x rule {none, phase 3/4 x deny/redirect/drop}, plus DetectionOnly {by directive, by ctl:ruleEngine in phase 1} x {Reject, ProcessPartial} x {no rule, would-be deny}, request body 3 B; " +
 			"the combination 'no Content-Type + non-matching MIME list' is left out as doubly unbuffered) and " +
 			"'req' (every program of <=2 / <=3 operations over {ReadAll, read with 1 B buffer, read with 3 B buffer, Write(3 B), WriteHeader(404), Flush} x 20 bodies " +
-			"x {request body access off, on x {Reject, ProcessPartial} x in-memory limit {default, limit/2 (spills to a temp file)}} x response buffering {off, on} x rule {none, phase 1-4 x deny/redirect/drop}, plus DetectionOnly x {Reject, ProcessPartial} x in-memory limit x {no rule, would-be deny}). " +
+			"x {request body access off, on x {Reject, ProcessPartial} x in-memory limit {default, limit/2 (spills to a temp file)}} x response buffering {off, on} x rule {none, phase 1-4 x deny/redirect/drop}, plus DetectionOnly {by directive, by ctl} x {Reject, ProcessPartial} x in-memory limit x {no rule, would-be deny}). " +
 			"distinct_nontrivial = distinct scenarios in which the middleware interrupted or the handler produced output / read the body",
 		Assumptions: []string{
 			"no sockets: the client side is what the ResponseWriter received; the strict writer follows net/http server.go (go1.25) header-snapshot, 1xx, body-not-allowed, Content-Length and Flush rules; Content-Type sniffing, Date, chunking, trailers, HEAD, Hijack and HTTP/2 push are not modelled",
@@ -382,7 +382,9 @@ func respConfs() []Conf {
 	// DetectionOnly: a limit of action Reject and a would-be deny only record; the exchange must pass through intact
 	for _, r := range []Rule{{}, {4, "deny"}} {
 		for _, act := range []string{"Reject", "ProcessPartial"} {
-			out = append(out, Conf{Rule: r, DetOnly: true, ReqAccess: true, ReqLimit: reqLimit, ReqAction: "Reject", RespAccess: true, RespLimit: respLimit, RespAction: act, Mime: "text/plain"})
+			for _, how := range []string{"directive", "ctl"} {
+				out = append(out, Conf{Rule: r, DetOnly: how, ReqAccess: true, ReqLimit: reqLimit, ReqAction: "Reject", RespAccess: true, RespLimit: respLimit, RespAction: act, Mime: "text/plain"})
+			}
 		}
 	}
 	return out
@@ -412,7 +414,9 @@ func reqConfs() []Conf {
 	for _, r := range []Rule{{}, {2, "deny"}} {
 		for _, act := range []string{"Reject", "ProcessPartial"} {
 			for _, mem := range []int{0, reqLimit / 2} {
-				out = append(out, Conf{Rule: r, DetOnly: true, ReqAccess: true, ReqLimit: reqLimit, ReqAction: act, ReqMem: mem, RespLimit: respLimit, RespAction: "Reject", Mime: "text/plain"})
+				for _, how := range []string{"directive", "ctl"} {
+					out = append(out, Conf{Rule: r, DetOnly: how, ReqAccess: true, ReqLimit: reqLimit, ReqAction: act, ReqMem: mem, RespLimit: respLimit, RespAction: "Reject", Mime: "text/plain"})
+				}
 			}
 		}
 	}
